@@ -95,6 +95,20 @@ CHECKS = {
         design="7 (C11), 1 (N2, N3)",
         technique="deterministic simulation: scripted suspensions + consumer histories (restart, interleave, cancel) against a reference interpreter",
     ),
+    "C15": dict(
+        text="Scope-limited (see DESIGN.md 7/C15). (i) Generated programs with recursive relations whose unfoldings introduce fresh "
+             "variables, several invocations alive in one conjunction, closures, under every schedule and under interleaved "
+             "iterators of one Query, against the reference interpreter (new variables per unfolding). (ii) A fixed corpus of "
+             "macro-written relations (shadowing, sibling scopes, pattern arms reusing names, repeated pattern variables, "
+             "recursion through proto_vulcan_closure!) compiled against the current macros at check time, compared with "
+             "hand-listed answers and hand-renamed twins. (iii) The process-global variable-id counter under 2-4 real threads "
+             "scheduled by shuttle (random and PCT schedulers, seed from VERIF_SEED, failing schedule persisted and replayable): "
+             "no thread is ever handed the same id twice and per-thread query answers equal the single-threaded ones. Not "
+             "covered: generated surface programs (compile-time).",
+        design="7 (C15), 4 (R6), 1 (N3, N4)",
+        technique="deterministic simulation: shuttle-controlled thread schedules over the id counter + consumer-history differential runs against a reference interpreter",
+        note=NOTE + " Thread part: shuttle 0.9.3's model of std atomics/threads; a shadow manifest (/verif/shadow/proto-vulcan) builds /repo/src with the shuttle dependency.",
+    ),
     "C16": dict(
         text="Seeded exploration of CLP(FD) programs x constraint re-run / labeling orders: the store containers are replaced "
              "by simulator-ordered ones, so the order in which constraints wake up, domains move between variables and "
@@ -183,9 +197,9 @@ def main():
         na.append({"property_id": pid, "reason": NOT_APPLICABLE.get(pid, PENDING_REASON)})
     manifest = {
         "version": 1,
-        "setup_cmd": "cd /verif/sim && CARGO_NET_OFFLINE=true cargo build --release --offline",
+        "setup_cmd": "cd /verif/sim && CARGO_NET_OFFLINE=true cargo build --release --offline && cd /verif/threads && CARGO_NET_OFFLINE=true cargo build --release --offline",
         "hooks": {
-            "guard": "--cfg terohuttunen_proto_vulcan_verif",
+            "guard": "--cfg terohuttunen_proto_vulcan_verif (plus --cfg terohuttunen_proto_vulcan_verif_shuttle for the thread seam H6, only ever set together with the first, only by /verif/threads)",
             "enable": "RUSTFLAGS/--cfg terohuttunen_proto_vulcan_verif via /verif/sim/.cargo/config.toml (build.rustflags); proto-vulcan is a path dependency on /repo, so every check rebuilds it from the working tree",
             "baseline_off_cmd": "cd /repo && cargo test --workspace --no-fail-fast --offline",
             "source_commits": [h.split()[0] for h in hooks],
